@@ -27,8 +27,13 @@ LE_LOW  == 6     \* LittleEndian | LowWordFirst
 LE_HIGH == 10    \* LittleEndian | HighWordFirst
 NamedOrders == {BE_LOW, BE_HIGH, LE_LOW, LE_HIGH}
 
-IsLE(o)  == o \in {LE_LOW, LE_HIGH}
-IsLow(o) == o \in {BE_LOW, LE_LOW}
+\* an order is a set of flags (BigEndian = 1, LittleEndian = 2, LowWordFirst = 4, HighWordFirst = 8); the four named
+\* orders combine one endianness with one word order, a bare flag leaves the other choice at "big endian" / "high word first"
+FlagSet(o, f) == (o \div f) % 2 = 1
+IsLE(o)  == FlagSet(o, 2)
+IsLow(o) == FlagSet(o, 4)
+\* strings: the two characters of a register are swapped exactly when the BigEndian flag is given
+StrSwapped(o) == FlagSet(o, 1)
 
 Reverse(s) == [i \in 1..Len(s) |-> s[Len(s) + 1 - i]]
 \* reverse the order of the 2-byte words of an even-length byte string
@@ -58,7 +63,7 @@ Pow2r(n) == IF n = 0 THEN 1 ELSE 2 * Pow2r(n - 1)
 \* string of `length' bytes: big endian orders store the two characters of a register swapped
 \* (library convention), the string ends at the first NUL
 StrChars(wire, length, o) ==
-    [j \in 1..length |-> IF IsLE(o) THEN wire[j]
+    [j \in 1..length |-> IF ~StrSwapped(o) THEN wire[j]
                          ELSE IF j % 2 = 1 THEN wire[j + 1] ELSE wire[j - 1]]
 RECURSIVE UntilNul(_, _)
 UntilNul(s, i) == IF i > Len(s) \/ s[i] = 0 THEN <<>> ELSE <<s[i]>> \o UntilNul(s, i + 1)
